@@ -309,6 +309,57 @@ theorem wrap_cartToRel (fl : K → Int) (pad : K) (hpad : 0 < pad) (b : Box K) (
   rw [atomPos, ← e]
   exact cartToRel_relToCart _ hd _
 
+theorem smul_one_sub_zero (v : V3 K) : V3.smul ((1 : K) - 0) v = v := by
+  obtain ⟨x, y, z⟩ := v
+  simp only [V3.smul, sub_zero, one_mul]
+
+theorem axisBounds_of_strict (pad : K) (p : Bool) (ss : List K)
+    (h : p = false → ∀ x ∈ ss, 0 < x ∧ x < 1) : axisBounds pad p ss = (0, 1) := by
+  cases p with
+  | true => exact axisBounds_periodic pad ss
+  | false =>
+    cases ss with
+    | nil => simp [axisBounds]
+    | cons a t =>
+      have ha := h rfl a List.mem_cons_self
+      have h1 : 0 < minOf a t := lt_minOf 0 a t ha.1 (fun x hx => (h rfl x (List.mem_cons_of_mem _ hx)).1)
+      have h2 : maxOf a t < 1 := maxOf_lt 1 a t ha.2 (fun x hx => (h rfl x (List.mem_cons_of_mem _ hx)).2)
+      simp only [axisBounds, Bool.false_eq_true, if_false, not_le.mpr h1, not_le.mpr h2]
+
+theorem paddedBox_unit (b : Box K) : paddedBox b ⟨(0, 1), (0, 1), (0, 1)⟩ = b := by
+  obtain ⟨⟨r0, r1, r2⟩, ⟨o0, o1, o2⟩⟩ := b
+  simp only [paddedBox, smul_one_sub_zero, M3.vecMul, V3.add_def, zero_mul, add_zero]
+
+theorem subFlags_zero (s : V3 K) : subFlags s ⟨0, 0, 0⟩ = s := by
+  obtain ⟨x, y, z⟩ := s
+  simp only [subFlags, Int.cast_zero, sub_zero]
+
+/-- components of `newRel` for an atom of the system: in `[0,1)`, positive on non-periodic axes. -/
+theorem newRel_facts (fl : K → Int) (hfl : IsFloor fl) (pad : K) (hpad : 0 < pad) (b : Box K) (pbc : V3 Bool)
+    (pos : List (V3 K)) (p : V3 K) (hp : p ∈ pos) :
+    (0 ≤ (newRel fl pad b pbc pos p).x ∧ (newRel fl pad b pbc pos p).x < 1 ∧
+      (pbc.x = false → 0 < (newRel fl pad b pbc pos p).x)) ∧
+    (0 ≤ (newRel fl pad b pbc pos p).y ∧ (newRel fl pad b pbc pos p).y < 1 ∧
+      (pbc.y = false → 0 < (newRel fl pad b pbc pos p).y)) ∧
+    (0 ≤ (newRel fl pad b pbc pos p).z ∧ (newRel fl pad b pbc pos p).z < 1 ∧
+      (pbc.z = false → 0 < (newRel fl pad b pbc pos p).z)) := by
+  have mx : (b.cartToRel p).x ∈ (pos.map b.cartToRel).map (·.x) :=
+    List.mem_map.mpr ⟨_, List.mem_map.mpr ⟨p, hp, rfl⟩, rfl⟩
+  have my : (b.cartToRel p).y ∈ (pos.map b.cartToRel).map (·.y) :=
+    List.mem_map.mpr ⟨_, List.mem_map.mpr ⟨p, hp, rfl⟩, rfl⟩
+  have mz : (b.cartToRel p).z ∈ (pos.map b.cartToRel).map (·.z) :=
+    List.mem_map.mpr ⟨_, List.mem_map.mpr ⟨p, hp, rfl⟩, rfl⟩
+  obtain ⟨_, x0, x1, x2⟩ := axis_unit fl hfl pad hpad pbc.x _ _ mx
+  obtain ⟨_, y0, y1, y2⟩ := axis_unit fl hfl pad hpad pbc.y _ _ my
+  obtain ⟨_, z0, z1, z2⟩ := axis_unit fl hfl pad hpad pbc.z _ _ mz
+  exact ⟨⟨x0, x1, x2⟩, ⟨y0, y1, y2⟩, ⟨z0, z1, z2⟩⟩
+
+theorem flagOf_unit (fl : K → Int) (hfl : IsFloor fl) (p : Bool) (t : K) (h0 : 0 ≤ t) (h1 : t < 1) :
+    flagOf fl p t = 0 := by
+  cases p with
+  | true => simp only [flagOf, if_true]; exact hfl.eq_zero h0 h1
+  | false => simp [flagOf]
+
 end atom
 
 end Atomman.C05
